@@ -22,8 +22,133 @@ import (
 
 func init() { Registry["C13"] = Check{Run: checkC13, NeedAllSSA: true} }
 
-// proveHandlerFn finds the ServeHTTP method of the handler registered for "/prove" in server.Run.
+// handlerEntry is what is registered for "/prove": the function that net/http invokes first (the handler type's ServeHTTP, or
+// the closure an in-repo middleware returns), the values its free variables and parameters are bound to, and the handler
+// type's ServeHTTP it ends up invoking.
+type handlerEntry struct {
+	Fn    *ssa.Function
+	Bind  map[ssa.Value]ssa.Value
+	Inner *ssa.Function
+}
+
+// proveHandlerEntry resolves the registration through at most one level of in-repo middleware
+// (Handle("/prove", requireMethod(POST, proveHandler{…}))).
+func proveHandlerEntry(p *core.Program) (*handlerEntry, string) {
+	inner, run, why := proveHandlerFnDirect(p)
+	if inner != nil {
+		return &handlerEntry{Fn: inner, Inner: inner, Bind: map[ssa.Value]ssa.Value{}}, ""
+	}
+	if run == nil {
+		return nil, why
+	}
+	for _, b := range run.Blocks {
+		for _, in := range b.Instrs {
+			c, ok := in.(ssa.CallInstruction)
+			if !ok {
+				continue
+			}
+			com := c.Common()
+			name := ""
+			if com.IsInvoke() {
+				name = com.Method.Name()
+			} else if sc := com.StaticCallee(); sc != nil {
+				name = sc.Name()
+			}
+			if (name != "Handle" && name != "HandleFunc") || len(com.Args) < 2 {
+				continue
+			}
+			k, ok := com.Args[len(com.Args)-2].(*ssa.Const)
+			if !ok || k.Value == nil || k.Value.Kind() != constant.String || constant.StringVal(k.Value) != "/prove" {
+				continue
+			}
+			wrap, ok := com.Args[len(com.Args)-1].(*ssa.Call)
+			if !ok {
+				continue
+			}
+			mw := wrap.Common().StaticCallee()
+			if mw == nil || mw.Blocks == nil || mw.Pkg == nil || !core.InRepo(mw.Pkg.Pkg.Path()) {
+				continue
+			}
+			// the middleware returns a closure (possibly converted to http.HandlerFunc and boxed)
+			var mc *ssa.MakeClosure
+			for _, mb := range mw.Blocks {
+				if ret, ok := mb.Instrs[len(mb.Instrs)-1].(*ssa.Return); ok && len(ret.Results) == 1 {
+					v := ret.Results[0]
+					for {
+						switch x := v.(type) {
+						case *ssa.MakeInterface:
+							v = x.X
+							continue
+						case *ssa.ChangeType:
+							v = x.X
+							continue
+						}
+						break
+					}
+					if m, ok := v.(*ssa.MakeClosure); ok {
+						mc = m
+					}
+				}
+			}
+			if mc == nil {
+				continue
+			}
+			entry, _ := mc.Fn.(*ssa.Function)
+			if entry == nil {
+				continue
+			}
+			he := &handlerEntry{Fn: entry, Bind: map[ssa.Value]ssa.Value{}}
+			for i, fv := range entry.FreeVars {
+				if i >= len(mc.Bindings) {
+					continue
+				}
+				bv := mc.Bindings[i]
+				// a captured parameter of the middleware stands for the argument in Run (captured by reference: through its cell)
+				if al, ok := bv.(*ssa.Alloc); ok {
+					for _, ref := range *al.Referrers() {
+						if st, ok := ref.(*ssa.Store); ok && st.Addr == ssa.Value(al) {
+							bv = st.Val
+						}
+					}
+				}
+				if prm, ok := bv.(*ssa.Parameter); ok {
+					for j, q := range mw.Params {
+						if q == prm && j < len(wrap.Common().Args) {
+							bv = wrap.Common().Args[j]
+						}
+					}
+				}
+				he.Bind[fv] = bv
+				if mi, ok := bv.(*ssa.MakeInterface); ok {
+					if fn := p.MethodOf(mi.X.Type(), "ServeHTTP"); fn != nil {
+						he.Inner = fn
+					} else if pt, ok := mi.X.Type().(*types.Pointer); ok {
+						if fn := p.MethodOf(pt.Elem(), "ServeHTTP"); fn != nil {
+							he.Inner = fn
+						}
+					}
+				}
+			}
+			if he.Inner != nil {
+				return he, ""
+			}
+		}
+	}
+	return nil, why
+}
+
+// proveHandlerFn finds the function net/http invokes for "/prove" (see proveHandlerEntry) and server.Run.
 func proveHandlerFn(p *core.Program) (*ssa.Function, *ssa.Function, string) {
+	he, why := proveHandlerEntry(p)
+	run := p.Func("server", "Run")
+	if he == nil {
+		return nil, run, why
+	}
+	return he.Fn, run, ""
+}
+
+// proveHandlerFnDirect finds the ServeHTTP method of the handler value registered for "/prove" in server.Run.
+func proveHandlerFnDirect(p *core.Program) (*ssa.Function, *ssa.Function, string) {
 	run := p.Func("server", "Run")
 	if run == nil {
 		return nil, nil, "anchor server.Run not found"
@@ -169,8 +294,15 @@ func checkC13(p *core.Program, r *core.Report) {
 	r.Floor("JSON callbacks reachable", 3)
 
 	seeds := map[ssa.Value]string{}
-	if len(handler.Params) > 0 {
+	if handler.Signature.Recv() != nil && len(handler.Params) > 0 {
 		seeds[handler.Params[0]] = "the handler value (shared by all requests)"
+	}
+	for _, fv := range handler.FreeVars {
+		// a middleware's closure: what it captured is shared by all requests
+		seeds[fv] = "a value captured by the handler closure (shared by all requests)"
+	}
+	if he, _ := proveHandlerEntry(p); he != nil && he.Inner != nil && he.Inner != handler && he.Inner.Signature.Recv() != nil && len(he.Inner.Params) > 0 {
+		seeds[he.Inner.Params[0]] = "the handler value (shared by all requests)"
 	}
 	sh := eff.Analyse(g, reach, seeds, func(gl *ssa.Global) bool { return gl.Pkg != nil && core.InRepo(gl.Pkg.Pkg.Path()) })
 	var allowNotes = map[string]bool{}
